@@ -29,6 +29,12 @@ PROP = dict(
         "same names and different contents in the outer module; few module-rooted imports, so a single skipped addModuleSentinel/"
         "bundleLocalFile (e.g. on an import-cache hit) shows in the archive's file list; the model has no cache, i.e. it predicts the "
         "archive independently of cache state",
+        "go.mod contents vary: LF and CRLF line ends, a blank or tab after the module path, a trailing blank line, a `go 1.x` line, "
+        "module paths with dots/dashes/underscores/slashes/spaces; nested modules' go.mod (copied, never parsed) additionally EMPTY, "
+        "without final newline or with a leading comment (for the main script's module the last three are KF-bundle-sentinel-syntax)",
+        "EMPTY files: empty nested go.mod, empty .txt/.b data (implicit and //encoding.bytes / failing //encoding.json decoders), empty "
+        ".arrai read through //encoding.bytes; the archive file list lists zero-length entries. A plain import of an empty .arrai "
+        "(a parse error on both sides) is not generated: the model does not parse script bytes",
         "data files .json/.yaml/.yml/.txt/.b with implicit decoders, explicit //encoding.json and //encoding.bytes decoders",
         "the working directory is process-wide: the harness runs these cases with one worker",
     ],
